@@ -7,6 +7,9 @@ import BareModel.Diff
 * `scanRight_some`, `scanLeft_some` — where a look-ahead match can lie
 * `slice_*`, `pushIf_*` — `arraySlice` inside its argument range
 * `leftOf_*`, `rightOf_*` — reading the two sides off a block list
+* `bodyStep`, `outer_body`, `outer_left_done`, `outer_right_done` — one pass through the body of the main loop, cleaned up
+* `outer_spec` (invariant: what is still emitted from `(ixLeft, ixRight)` reconstructs `L[ixLeft:]` / `R[ixRight:]`),
+  `outer_isSome` (fuel sufficiency), `outer_mono` (fuel monotonicity)
 -/
 
 namespace C20
@@ -162,5 +165,269 @@ theorem drop_ne_nil {a : List α} {s : Nat} (h : s < a.length) : a.drop s ≠ []
 
 @[simp] theorem pushIf_false (k : Kind) (s : Option (List α)) : pushIf false k s = some [] := rfl
 @[simp] theorem pushIf_true (k : Kind) (ls : List α) : pushIf true k (some ls) = some [⟨k, ls⟩] := rfl
+
+/-! ## the main loop -/
+
+/-- the cleaned-up pass through the loop body when both sides still have lines -/
+def bodyStep (L R : List α) (f i j : Nat) : Option (List (Block α)) :=
+  let n := commonLen (L.drop i) (R.drop j)
+  if 0 < n then
+    (outer L R f false (i + n) (j + n)).map (fun rest => ⟨.identical, (L.drop i).take n⟩ :: rest)
+  else
+    match scanLeft (R.drop j) j (L.drop i) i with
+    | none => (outer L R f false L.length R.length).map
+        (fun rest => [⟨.remove, L.drop i⟩, ⟨.add, R.drop j⟩] ++ rest)
+    | some (it, jt) => (outer L R f true it jt).map (fun rest =>
+        (if i < it then [⟨.remove, (L.take it).drop i⟩] else [])
+          ++ (if j < jt then [⟨.add, (R.take jt).drop j⟩] else []) ++ rest)
+
+theorem outer_body (L R : List α) (f : Nat) (test : Bool) (i j : Nat) (hi : i < L.length) (hj : j < R.length) :
+    outer L R (f + 1) test i j = bodyStep L R f i j := by
+  have h1 : ¬ (L.length ≤ i) := by omega
+  have h2 : ¬ (R.length ≤ j) := by omega
+  simp only [outer, identLoop_eq, List.nil_append, bodyStep, hi, hj, decide_true, Bool.or_self, Bool.not_true,
+    Bool.and_false, ge_iff_le, h1, h2, if_false, Bool.false_eq_true]
+  by_cases hn : commonLen (L.drop i) (R.drop j) = 0
+  · simp only [hn, List.take_zero, Nat.add_zero, ne_eq, not_true_eq_false, if_false, Nat.lt_irrefl]
+    cases hs : scanLeft (R.drop j) j (L.drop i) i with
+    | none =>
+      simp [hi, hj, slice_to_end (Nat.le_of_lt hi), slice_to_end (Nat.le_of_lt hj)]
+    | some p =>
+      obtain ⟨it, jt⟩ := p
+      have ⟨a1, a2, a3, a4, _⟩ := scanLeft_some hs
+      simp only [List.length_drop] at a2 a4
+      have e1 : it ≤ L.length := by omega
+      have e2 : jt ≤ R.length := by omega
+      have k1 : (if i < it then it else i) = it := by split <;> omega
+      have k2 : (if j < jt then jt else j) = jt := by split <;> omega
+      simp only [gt_iff_lt, slice_between e1 a1, slice_between e2 a3, k1, k2]
+      by_cases c1 : i < it <;> by_cases c2 : j < jt <;> simp [c1, c2]
+  · have hle := commonLen_le_left (L.drop i) (R.drop j)
+    have hne : (L.drop i).take (commonLen (L.drop i) (R.drop j)) ≠ [] := by
+      intro e
+      have := congrArg List.length e
+      simp only [List.length_take, List.length_nil] at this
+      omega
+    simp [hne, Nat.pos_of_ne_zero hn]
+
+theorem outer_left_done (L R : List α) (f : Nat) (test : Bool) (i j : Nat) (hi : L.length ≤ i) (hj : j ≤ R.length) :
+    outer L R (f + 1) test i j = some (if j < R.length then [⟨.add, R.drop j⟩] else []) := by
+  have h1 : ¬ (i < L.length) := by omega
+  by_cases c : j < R.length
+  · simp [outer, h1, c, hi, slice_to_end hj]
+  · cases test <;> simp [outer, h1, c, hi]
+
+theorem outer_right_done (L R : List α) (f : Nat) (test : Bool) (i j : Nat) (hi : i < L.length) (hj : R.length ≤ j) :
+    outer L R (f + 1) test i j = some [⟨.remove, L.drop i⟩] := by
+  have h1 : ¬ (L.length ≤ i) := by omega
+  have h2 : ¬ (j < R.length) := by omega
+  simp [outer, h1, h2, hi, hj, slice_to_end (Nat.le_of_lt hi)]
+
+/-- a look-ahead match found right after the identical-lines loop stopped is not at the current position -/
+theorem scan_progress {xs ys : List α} {i j it jt : Nat} (hn : commonLen xs ys = 0)
+    (hs : scanLeft ys j xs i = some (it, jt)) : i < it ∨ j < jt := by
+  have ⟨a1, a2, a3, a4, a5⟩ := scanLeft_some hs
+  by_cases c : i < it
+  · exact Or.inl c
+  · by_cases d : j < jt
+    · exact Or.inr d
+    · exfalso
+      have e1 : it - i = 0 := by omega
+      have e2 : jt - j = 0 := by omega
+      rw [e1, e2] at a5
+      cases xs with
+      | nil => simp at a2; omega
+      | cons x xs =>
+        cases ys with
+        | nil => simp at a4; omega
+        | cons y ys =>
+          simp at a5
+          exact commonLen_zero_head hn a5
+
+theorem leftOf_ite_remove (c : Prop) [Decidable c] (x : List α) :
+    leftOf (if c then [(⟨.remove, x⟩ : Block α)] else []) = if c then x else [] := by
+  split <;> simp [leftOf_cons]
+
+theorem leftOf_ite_add (c : Prop) [Decidable c] (x : List α) :
+    leftOf (if c then [(⟨.add, x⟩ : Block α)] else []) = [] := by
+  split <;> simp [leftOf_cons]
+
+theorem rightOf_ite_remove (c : Prop) [Decidable c] (x : List α) :
+    rightOf (if c then [(⟨.remove, x⟩ : Block α)] else []) = [] := by
+  split <;> simp [rightOf_cons]
+
+theorem rightOf_ite_add (c : Prop) [Decidable c] (x : List α) :
+    rightOf (if c then [(⟨.add, x⟩ : Block α)] else []) = if c then x else [] := by
+  split <;> simp [rightOf_cons]
+
+theorem outer_spec (L R : List α) : ∀ (f : Nat) (test : Bool) (i j : Nat) (bs : List (Block α)),
+    i ≤ L.length → j ≤ R.length → outer L R f test i j = some bs →
+    leftOf bs = L.drop i ∧ rightOf bs = R.drop j ∧ ∀ b ∈ bs, b.lines ≠ [] := by
+  intro f
+  induction f with
+  | zero => intro _ _ _ _ _ _ h; simp [outer] at h
+  | succ f ih =>
+    intro test i j bs hi hj h
+    by_cases ci : i < L.length
+    · by_cases cj : j < R.length
+      · rw [outer_body L R f test i j ci cj] at h
+        simp only [bodyStep] at h
+        have hl := commonLen_le_left (L.drop i) (R.drop j)
+        have hr := commonLen_le_right (L.drop i) (R.drop j)
+        simp only [List.length_drop] at hl hr
+        split at h
+        · rename_i hn
+          simp only [Option.map_eq_some_iff] at h
+          obtain ⟨rest, hrest, rfl⟩ := h
+          have ⟨r1, r2, r3⟩ := ih _ _ _ _ (by omega) (by omega) hrest
+          refine ⟨?_, ?_, ?_⟩
+          · simp [leftOf_cons, r1, ← List.drop_drop]
+          · rw [take_commonLen]
+            simp [rightOf_cons, r2, ← List.drop_drop]
+          · intro b hb
+            simp only [List.mem_cons] at hb
+            rcases hb with rfl | hb
+            · intro e
+              have := congrArg List.length e
+              simp only [List.length_take, List.length_drop, List.length_nil] at this
+              omega
+            · exact r3 b hb
+        · split at h
+          · simp only [Option.map_eq_some_iff] at h
+            obtain ⟨rest, hrest, rfl⟩ := h
+            have ⟨r1, r2, r3⟩ := ih _ _ _ _ (Nat.le_refl _) (Nat.le_refl _) hrest
+            refine ⟨?_, ?_, ?_⟩
+            · simp [leftOf_cons, r1]
+            · simp [rightOf_cons, r2]
+            · intro b hb
+              simp only [List.cons_append, List.nil_append, List.mem_cons] at hb
+              rcases hb with rfl | rfl | hb
+              · exact drop_ne_nil ci
+              · exact drop_ne_nil cj
+              · exact r3 b hb
+          · rename_i it jt hs
+            have ⟨a1, a2, a3, a4, _⟩ := scanLeft_some hs
+            simp only [List.length_drop] at a2 a4
+            simp only [Option.map_eq_some_iff] at h
+            obtain ⟨rest, hrest, rfl⟩ := h
+            have ⟨r1, r2, r3⟩ := ih _ _ _ _ (by omega) (by omega) hrest
+            refine ⟨?_, ?_, ?_⟩
+            · rw [leftOf_append, leftOf_append, leftOf_ite_remove, leftOf_ite_add, r1, List.append_nil]
+              split
+              · exact (drop_eq_slice_append a1).symm
+              · have : it = i := by omega
+                subst this; rfl
+            · rw [rightOf_append, rightOf_append, rightOf_ite_remove, rightOf_ite_add, r2, List.nil_append]
+              split
+              · exact (drop_eq_slice_append a3).symm
+              · have : jt = j := by omega
+                subst this; rfl
+            · intro b hb
+              simp only [List.mem_append] at hb
+              rcases hb with (hb | hb) | hb
+              · split at hb
+                · simp only [List.mem_singleton] at hb; subst hb
+                  exact slice_between_ne_nil (by omega) (by assumption)
+                · simp at hb
+              · split at hb
+                · simp only [List.mem_singleton] at hb; subst hb
+                  exact slice_between_ne_nil (by omega) (by assumption)
+                · simp at hb
+              · exact r3 b hb
+      · rw [outer_right_done L R f test i j ci (by omega)] at h
+        cases h
+        have : j = R.length := by omega
+        subst this
+        refine ⟨by simp [leftOf_cons], by simp [rightOf_cons], ?_⟩
+        intro b hb; simp only [List.mem_singleton] at hb; subst hb; exact drop_ne_nil ci
+    · rw [outer_left_done L R f test i j (by omega) hj] at h
+      cases h
+      have : i = L.length := by omega
+      subst this
+      split
+      · rename_i cj
+        refine ⟨by simp [leftOf_cons], by simp [rightOf_cons], ?_⟩
+        intro b hb; simp only [List.mem_singleton] at hb; subst hb; exact drop_ne_nil cj
+      · have : j = R.length := by omega
+        subst this
+        simp
+
+/-- enough fuel: one unit per line still to be consumed, plus one for the pass that ends the loop -/
+theorem outer_isSome (L R : List α) : ∀ (f : Nat) (test : Bool) (i j : Nat),
+    i ≤ L.length → j ≤ R.length → (L.length - i) + (R.length - j) + 1 ≤ f →
+    (outer L R f test i j).isSome := by
+  intro f
+  induction f with
+  | zero => intro _ _ _ _ _ h; omega
+  | succ f ih =>
+    intro test i j hi hj hf
+    by_cases ci : i < L.length
+    · by_cases cj : j < R.length
+      · rw [outer_body L R f test i j ci cj]
+        simp only [bodyStep]
+        have hl := commonLen_le_left (L.drop i) (R.drop j)
+        have hr := commonLen_le_right (L.drop i) (R.drop j)
+        simp only [List.length_drop] at hl hr
+        split
+        · rw [Option.isSome_map]
+          exact ih _ _ _ (by omega) (by omega) (by omega)
+        · rename_i hn
+          have hn0 : commonLen (L.drop i) (R.drop j) = 0 := by omega
+          split
+          · rw [Option.isSome_map]
+            exact ih _ _ _ (Nat.le_refl _) (Nat.le_refl _) (by omega)
+          · rename_i it jt hs
+            have ⟨a1, a2, a3, a4, _⟩ := scanLeft_some hs
+            simp only [List.length_drop] at a2 a4
+            have hp := scan_progress hn0 hs
+            rw [Option.isSome_map]
+            exact ih _ _ _ (by omega) (by omega) (by omega)
+      · rw [outer_right_done L R f test i j ci (by omega)]; rfl
+    · rw [outer_left_done L R f test i j (by omega) hj]; rfl
+
+/-- more fuel never changes a result -/
+theorem outer_mono (L R : List α) : ∀ (f : Nat) (test : Bool) (i j : Nat) (bs : List (Block α)),
+    i ≤ L.length → j ≤ R.length → outer L R f test i j = some bs → outer L R (f + 1) test i j = some bs := by
+  intro f
+  induction f with
+  | zero => intro _ _ _ _ _ _ h; simp [outer] at h
+  | succ f ih =>
+    intro test i j bs hi hj h
+    by_cases ci : i < L.length
+    · by_cases cj : j < R.length
+      · rw [outer_body L R f test i j ci cj] at h
+        rw [outer_body L R (f + 1) test i j ci cj]
+        simp only [bodyStep] at h ⊢
+        have hl := commonLen_le_left (L.drop i) (R.drop j)
+        have hr := commonLen_le_right (L.drop i) (R.drop j)
+        simp only [List.length_drop] at hl hr
+        split
+        · rename_i hn
+          simp only [hn, if_true, Option.map_eq_some_iff] at h ⊢
+          obtain ⟨rest, hrest, rfl⟩ := h
+          exact ⟨rest, ih _ _ _ _ (by omega) (by omega) hrest, rfl⟩
+        · rename_i hn
+          simp only [hn, if_false] at h
+          split at h
+          · rename_i hs
+            simp only [Option.map_eq_some_iff] at h ⊢
+            obtain ⟨rest, hrest, rfl⟩ := h
+            exact ⟨rest, ih _ _ _ _ (Nat.le_refl _) (Nat.le_refl _) hrest, rfl⟩
+          · rename_i it jt hs
+            have ⟨a1, a2, a3, a4, _⟩ := scanLeft_some hs
+            simp only [List.length_drop] at a2 a4
+            simp only [Option.map_eq_some_iff] at h ⊢
+            obtain ⟨rest, hrest, rfl⟩ := h
+            exact ⟨rest, ih _ _ _ _ (by omega) (by omega) hrest, rfl⟩
+      · rw [outer_right_done L R f test i j ci (by omega)] at h
+        rw [outer_right_done L R (f + 1) test i j ci (by omega)]; exact h
+    · rw [outer_left_done L R f test i j (by omega) hj] at h
+      rw [outer_left_done L R (f + 1) test i j (by omega) hj]; exact h
+
+theorem outer_mono_le (L R : List α) {f g : Nat} (hfg : f ≤ g) (test : Bool) (i j : Nat) (bs : List (Block α))
+    (hi : i ≤ L.length) (hj : j ≤ R.length) (h : outer L R f test i j = some bs) : outer L R g test i j = some bs := by
+  induction hfg with
+  | refl => exact h
+  | step _ ih => exact outer_mono L R _ test i j bs hi hj ih
 
 end C20
